@@ -115,3 +115,9 @@ package keeper
 //@   ensures[C03.pdw.accept]   isWithdraw(params.Action) && val(params.OpAmount) >= 0 && old(assetRaw(ctx, pdwAsset(params))) != nil &&
 //@        val(params.OpAmount) <= old(stWithdrawable(ctx, pdwStaker(params), pdwAsset(params))) &&
 //@        old(stWithdrawable(ctx, pdwStaker(params), pdwAsset(params))) <= old(stDeposit(ctx, pdwStaker(params), pdwAsset(params))) ==> err == nil
+
+//@ func (Keeper).GetStakerSpecifiedAssetInfo
+//@   requires assetID != nativeID()
+//@   ensures[C01.gssai.spec] (err != nil) <==> (stakerRaw(ctx, stakerID, assetID) == nil)
+//@   ensures[C01.gssai.val]  err == nil ==> info != nil && *info == stakerInfo(ctx, stakerID, assetID)
+//@   ensures[C01.gssai.nil]  err != nil ==> info == nil
